@@ -275,8 +275,9 @@ func VerifC19TwoBranches() {
 			return target, nil
 		}, map[string]bool{"x1": true, "x2": true})
 	}
+	second := []string{"x2", "x1"}[vchoose("sameTarget", 2)] // both branches may select the same successor
 	_ = g.AddBranch("a", mkBranch("x1"))
-	_ = g.AddBranch("a", mkBranch("x2"))
+	_ = g.AddBranch("a", mkBranch(second))
 	_ = g.AddEdge("x1", END)
 	_ = g.AddEdge("x2", END)
 	r, err := g.Compile(ctx, WithNodeTriggerMode(AllPredecessor))
